@@ -12,15 +12,21 @@
    the harness maps units to byte ranges).  Header units carry what the real header bytes
    carry: the escape marker or the body size.
 
+   A message the format cannot carry (class "bad": in Abridged mode a length that is not a multiple of four) is refused
+   by the writer; a refused message leaves nothing on the stream, and the messages after it travel as if it had never
+   been offered.
+
    Dev: ShortRead - a read returns whatever is buffered instead of blocking for the full
-        count (a bare conn.Read instead of io.ReadFull). *)
+        count (a bare conn.Read instead of io.ReadFull).
+        HeaderBeforeRefusal - the length header is written before the message is refused (seeded change C08_14). *)
 EXTENDS Integers, Sequences, FiniteSets, TLC
 
 CONSTANTS MaxMsgs, Dev
 
 Modes == {"abridged", "intermediate"}
 \* message classes: small = 1-byte header in abridged, big = 0x7f escape + 3 bytes; body units 0 or 2
-Classes == {[size |-> s, body |-> b] : s \in {"small", "big"}, b \in {0, 2}}
+Classes == {[size |-> s, body |-> b] : s \in {"small", "big"}, b \in {0, 2}} \cup {[size |-> "bad", body |-> 2]}
+Carriable(m, c) == c.size # "bad" \/ m = "intermediate"    \* Intermediate carries any length: there "bad" is a small message
 
 VARIABLES mode, msgs, wpos, stream, rbuf, rd, out, closed, result, detected, torn
 vars == <<mode, msgs, wpos, stream, rbuf, rd, out, closed, result, detected, torn>>
@@ -29,7 +35,7 @@ Ann(m) == IF m = "abridged" THEN <<[k |-> "ann", v |-> "ef"]>>
           ELSE [i \in 1..4 |-> [k |-> "ann", v |-> "ee"]]
 Header(m, i, c) ==
   IF m = "abridged"
-    THEN IF c.size = "small" THEN <<[k |-> "len", n |-> c.body, of |-> i]>>
+    THEN IF c.size \in {"small", "bad"} THEN <<[k |-> "len", n |-> c.body, of |-> i]>>
          ELSE <<[k |-> "esc", of |-> i], [k |-> "lenpart", of |-> i], [k |-> "lenpart", of |-> i], [k |-> "len", n |-> c.body, of |-> i]>>
     ELSE <<[k |-> "lenpart", of |-> i], [k |-> "lenpart", of |-> i], [k |-> "lenpart", of |-> i], [k |-> "len", n |-> c.body, of |-> i]>>
 Body(i, c) == [j \in 1..c.body |-> [k |-> "body", of |-> i, j |-> j]]
@@ -45,12 +51,17 @@ Init ==
 (* ---- writer ---- *)
 Announce == wpos = 0 /\ ~closed /\ wpos' = 1 /\ stream' = stream \o Ann(mode)
             /\ UNCHANGED <<mode, msgs, rbuf, rd, out, closed, result, detected, torn>>
-WriteFrame == /\ wpos >= 1 /\ wpos <= Len(msgs) /\ ~closed
+WriteFrame == /\ wpos >= 1 /\ wpos <= Len(msgs) /\ ~closed /\ Carriable(mode, msgs[wpos])
               /\ stream' = stream \o Frame(mode, wpos, msgs[wpos]) /\ wpos' = wpos + 1
               /\ UNCHANGED <<mode, msgs, rbuf, rd, out, closed, result, detected, torn>>
+\* the writer refuses what the format cannot carry: an error for the caller, nothing for the stream
+WriteRefuse == /\ wpos >= 1 /\ wpos <= Len(msgs) /\ ~closed /\ ~Carriable(mode, msgs[wpos])
+               /\ stream' = IF "HeaderBeforeRefusal" \in Dev THEN stream \o Header(mode, wpos, msgs[wpos]) ELSE stream
+               /\ wpos' = wpos + 1
+               /\ UNCHANGED <<mode, msgs, rbuf, rd, out, closed, result, detected, torn>>
 CloseBoundary == wpos >= 1 /\ ~closed /\ closed' = TRUE
                  /\ UNCHANGED <<mode, msgs, wpos, stream, rbuf, rd, out, result, detected, torn>>
-CloseMid(j) == /\ wpos >= 1 /\ wpos <= Len(msgs) /\ ~closed
+CloseMid(j) == /\ wpos >= 1 /\ wpos <= Len(msgs) /\ ~closed /\ Carriable(mode, msgs[wpos])
                /\ j >= 1 /\ j < Len(Frame(mode, wpos, msgs[wpos]))
                /\ stream' = stream \o SubSeq(Frame(mode, wpos, msgs[wpos]), 1, j)
                /\ closed' = TRUE /\ wpos' = Len(msgs) + 2 /\ torn' = wpos   \* died inside frame `wpos`
@@ -107,20 +118,23 @@ ReadEnd == /\ result = "none" /\ closed /\ stream = <<>> /\ Len(rbuf) < rd.need
            /\ UNCHANGED <<mode, msgs, wpos, stream, rbuf, rd, out, closed, detected, torn>>
 
 Finished == result # "none" /\ UNCHANGED vars
-Next == Announce \/ WriteFrame \/ CloseBoundary \/ ReadExact \/ ReadShort \/ ReadEnd \/ Finished
+Next == Announce \/ WriteFrame \/ WriteRefuse \/ CloseBoundary \/ ReadExact \/ ReadShort \/ ReadEnd \/ Finished
         \/ \E j \in 1..5 : CloseMid(j)
         \/ \E k \in 1..12 : NetDeliver(k)
 Spec == Init /\ [][Next]_vars
-        /\ WF_vars(Announce) /\ WF_vars(WriteFrame) /\ WF_vars(CloseBoundary)
+        /\ WF_vars(Announce) /\ WF_vars(WriteFrame) /\ WF_vars(WriteRefuse) /\ WF_vars(CloseBoundary)
         /\ WF_vars(ReadExact) /\ WF_vars(ReadEnd) /\ WF_vars(\E k \in 1..12 : NetDeliver(k))
 
 (* ---- properties ---- *)
 Died == wpos = Len(msgs) + 2                 \* the writer died inside a frame
 \* complete frames on the stream (a frame cut short does not count); CloseMid records which
-Written == IF Died THEN torn - 1 ELSE IF wpos = 0 THEN 0 ELSE wpos - 1
+\* the messages that travel: positions of the carriable ones, in order
+CarIdx == SelectSeq([i \in 1..Len(msgs) |-> i], LAMBDA i : Carriable(mode, msgs[i]))
+CarriedBelow(n) == Cardinality({i \in 1..Len(msgs) : i < n /\ Carriable(mode, msgs[i])})
+Written == IF Died THEN CarriedBelow(torn) ELSE IF wpos = 0 THEN 0 ELSE CarriedBelow(wpos)
 DeliveredIsPrefixOfSent ==
-  /\ Len(out) <= Len(msgs)
-  /\ \A i \in 1..Len(out) : out[i] = Body(i, msgs[i])
+  /\ Len(out) <= Len(CarIdx)
+  /\ \A i \in 1..Len(out) : out[i] = Body(CarIdx[i], msgs[CarIdx[i]])
 ModeDetected == detected # "none" => detected = mode
 \* end of stream at a frame boundary is end-of-stream, after everything written was delivered
 EofIsEof == result = "eof" => closed /\ Len(out) = Written
